@@ -178,49 +178,6 @@ theorem peer_slow_reply_run (seg0 : Nat) (e0 : ASE) (m1 : List ASE) (ek : ASE) (
     exact htail
   exact ⟨_, _, _, _, _, rfl, hreply, hfollow⟩
 
-omit hUp hSR in
-/-- an expired hop field at an AS of the first segment of a peering path that is not the peering
-    AS: SCMP 4/52 on the packet as updated at ingress -/
-theorem expired_step_pr (seg a i : Nat) (h : Hop) (done : List Hop) (t0 : Hop) (todo : List Hop)
-    (sD : Seg) (hi0 : i ≠ 0) (hexp : expired now ts h.exp = true) :
-    routerStep mac (cfgOf net a) now (.ext i) (a == src) (a == dst)
-        ⟨[], ⟨cd, true, seg, ts⟩, done, h, t0 :: todo, [sD]⟩ =
-      .slow 4 52 0 ⟨[], ⟨cd, true, usedSeg cd seg h, ts⟩, done, h, t0 :: todo, [sD]⟩ := by
-  have hing : ingUpd ⟨[], ⟨cd, true, seg, ts⟩, done, h, t0 :: todo, [sD]⟩ (.ext i) false =
-      ⟨[], ⟨cd, true, usedSeg cd seg h, ts⟩, done, h, t0 :: todo, [sD]⟩ := by
-    cases cd <;> simp [ingUpd, usedSeg, Arrival.ifid, hi0]
-  unfold routerStep stIngress
-  simp only [determinePeer, Bool.not_true, Bool.false_and, Bool.false_eq_true, if_false,
-    List.length_nil, List.length_cons, Nat.zero_add, ne_eq, not_true_eq_false, List.isEmpty_nil,
-    List.isEmpty_cons, Bool.and_false, Bool.or_false, Bool.true_and, Bool.not_false, Bool.or_self,
-    hing]
-  unfold stChecks
-  simp [hexp]
-
-/-- instance of `peer_slow_reply_run`: the hop field of `ek` has expired (SCMP 4/52) -/
-theorem peer_expired_reply_run (seg0 : Nat) (e0 : ASE) (m1 : List ASE) (ek : ASE) (exp' : Nat)
-    (t0 : Hop) (tlh : List Hop) (sD : Seg)
-    (hFL : FL mac net core cd ts seg0 (e0 :: (m1 ++ [ek])))
-    (hsrc : src = e0.ia) (hsd : src ≠ dst)
-    (hnd : ((e0 :: (m1 ++ [ek])).map (·.ia)).Nodup)
-    (hmidd : ∀ e ∈ m1, e.ia ≠ dst)
-    (hexpU : ∀ e ∈ e0 :: m1, expired now ts e.hop.exp = false)
-    (hexp' : expired now ts exp' = true) (fuel : Nat) :
-    ∃ tr c1 rc trr cr,
-      run mac net now src dst (fuel + 2 + m1.length) src 0 .host
-        ⟨[], ⟨cd, true, usedAt cd seg0 e0, ts⟩, [], hopOf e0.hop,
-          (m1.map fun e => hopOf e.hop) ++ { hopOf ek.hop with exp := exp' } :: t0 :: tlh, [sD]⟩ [] =
-        .stopped ek.ia 0 (.ext (inF cd ek)) (.slow 4 52 0 c1) tr ∧
-      replyOf (.slow 4 52 0 c1) (.ext (inF cd ek)) = some rc ∧
-      followReply mac net now src ek.ia 0 (.ext (inF cd ek)) rc = .delivered src trr cr := by
-  obtain ⟨_, hin0, _⟩ := fl_last mac net core cd ts m1 e0 ek seg0 hFL
-  have hes := expired_step_pr mac net now src dst cd ts
-    (extractBeta (updateSegID seg0 (pfx e0.hop.mac)) (sig m1)) ek.ia (inF cd ek)
-    { hopOf ek.hop with exp := exp' } (hopOf e0.hop :: m1.map fun e => hopOf e.hop) t0 tlh sD
-    hin0 (by simpa using hexp')
-  exact peer_slow_reply_run mac net now src dst core cd ts hUp hSR seg0 e0 m1 ek _ 4 52 t0 tlh sD hFL
-    hsrc hsd hnd hmidd hexpU hes fuel
-
 end
 
 end Scion.Net
